@@ -69,7 +69,7 @@ func c02(c *Ctx) {
 	isFold := func(fn *types.Func, _ *ast.CallExpr) bool { return fn == arm.Obj }
 	isDeleter := func(fn *types.Func, _ *ast.CallExpr) bool {
 		return isFunc(fn, "outputstream", "(*OutputStream).Delete") || isFunc(fn, "raftstore", "(*LevelDBStore).DeleteRange") ||
-			(fn.Pkg() != nil && fn.Pkg().Path() == pathLevelDB && fn.Name() == "Delete")
+			(fn.Pkg() != nil && fn.Pkg().Path() == pathLevelDB && fname(fn) == "Delete")
 	}
 	folds := callsIn(snap, isFold)
 	r.Check(len(folds) == 1, "C02.N1", name, "one fold call", c.P.Pos(snap.Node().Pos()), "applyRobustMessage on the temporary server", "expected exactly one fold call (applyRobustMessage) in Snapshot")
@@ -126,7 +126,7 @@ func c02(c *Ctx) {
 			return false
 		}
 		fn := astx.Callee(info, call)
-		if fn == nil || fn.Name() != "After" {
+		if fn == nil || fname(fn) != "After" {
 			return false
 		}
 		se, ok := ast.Unparen(call.Fun).(*ast.SelectorExpr)
@@ -267,7 +267,7 @@ func c02(c *Ctx) {
 		for _, v := range g.Nodes() {
 			if as, ok := v.Node.(*ast.AssignStmt); ok && len(as.Rhs) == 1 {
 				if call, ok := ast.Unparen(as.Rhs[0]).(*ast.CallExpr); ok {
-					if fn := astx.Callee(info, call); fn != nil && fn.Name() == "FirstIndex" {
+					if fn := astx.Callee(info, call); fn != nil && fname(fn) == "FirstIndex" {
 						if id, ok := as.Lhs[0].(*ast.Ident); ok {
 							firstObj = astx.Obj(info, id)
 						}
@@ -368,7 +368,7 @@ func c02(c *Ctx) {
 							}
 						}
 					case *ast.CallExpr:
-						if fn := astx.Callee(info, x); fn != nil && fn.Name() == "Sub" {
+						if fn := astx.Callee(info, x); fn != nil && fname(fn) == "Sub" {
 							neg = true
 						}
 					}
@@ -586,7 +586,7 @@ func (c *Ctx) c02Restore() {
 				return false
 			}
 			for _, call := range astx.Calls(x.Node, false) {
-				if fn := astx.Callee(di, call); fn != nil && fn.Name() == "Put" && fn.Pkg() != nil && fn.Pkg().Path() == pathLevelDB {
+				if fn := astx.Callee(di, call); fn != nil && fname(fn) == "Put" && fn.Pkg() != nil && fn.Pkg().Path() == pathLevelDB {
 					k, _ := inState(x.ID)
 					_ = k
 					return true
@@ -762,7 +762,7 @@ func (c *Ctx) c02Stream(snap *load.FuncInfo) {
 		if li != nil {
 			if d := uniqueDef(si, snap.Node(), li); d != nil {
 				if call, ok := ast.Unparen(d).(*ast.CallExpr); ok {
-					if fn := astx.Callee(si, call); fn != nil && fn.Name() == "LastIndex" {
+					if fn := astx.Callee(si, call); fn != nil && fname(fn) == "LastIndex" {
 						okLast = true
 					}
 				}
@@ -798,7 +798,7 @@ func (c *Ctx) c02BaseState(snap *load.FuncInfo, lss *types.Var) {
 	for _, v := range g.Nodes() {
 		if as, ok := v.Node.(*ast.AssignStmt); ok && len(as.Rhs) == 1 {
 			if call, ok := ast.Unparen(as.Rhs[0]).(*ast.CallExpr); ok {
-				if fn := astx.Callee(info, call); fn != nil && fn.Name() == "FirstIndex" {
+				if fn := astx.Callee(info, call); fn != nil && fname(fn) == "FirstIndex" {
 					if id, ok := as.Lhs[0].(*ast.Ident); ok {
 						firstObj = astx.Obj(info, id)
 					}
